@@ -200,45 +200,57 @@ def _observe(itask, eff):
             "exec": timers["exec"], "sub": timers["sub"], "eff": effs}
 
 
-def run_case(case):
+def new_task(case):
+    """(fixture, tdef, fresh real TaskProxy) for a case's (n, m, k)"""
     import logging
     from cylc.flow import LOG
     from cylc.flow.cycling.loader import get_point
     from cylc.flow.id import Tokens
     from cylc.flow.run_modes import RunMode
-    from cylc.flow.subprocctx import SubProcContext
     from cylc.flow.task_proxy import TaskProxy
 
     fx = _fixture()
     LOG.setLevel(logging.CRITICAL + 1)
-    tem, tjm, rec = fx["tem"], fx["tjm"], fx["rec"]
     tdef = fx["cfg"].taskdefs[f"t{case['n']}{case['m']}{case['k']}"]
     itask = TaskProxy(Tokens("~u/vp-taskmsg"), tdef, get_point("1"))
     itask.run_mode = RunMode.LIVE
+    return fx, tdef, itask
+
+
+def apply_op(fx, tdef, itask, op):
+    """apply one op to the real task; effects are collected in fx['rec']['eff']"""
+    from cylc.flow.subprocctx import SubProcContext
+    tem, tjm, rec = fx["tem"], fx["tjm"], fx["rec"]
+    if op[0] == "prep":
+        if itask.state.status in ("waiting", "preparing"):
+            tjm.prep_submit_task_jobs([itask], check_syntax=False)
+            # as submit_livelike_task_jobs does once the job file is used
+            itask.local_job_file_path = None
+            itask.waiting_on_job_prep = False
+    elif op[0] == "subres":
+        ctx = SubProcContext("jobs-submit", ["x"])
+        ctx.ret_code = 0
+        job = f"1/{tdef.name}/{itask.submit_num:02d}"
+        line = (f"2020-01-01T00:00:00Z|{job}|0|1234" if op[1]
+                else f"2020-01-01T00:00:00Z|{job}|1|None")
+        tjm._submit_task_job_callback(itask, ctx, line)
+    else:
+        _, text, flag, rel = op
+        fl = {"received": tem.FLAG_RECEIVED, "polled": tem.FLAG_POLLED,
+              "internal": tem.FLAG_INTERNAL}[flag]
+        sn = itask.submit_num + rel
+        ret = tem.process_message(itask, "INFO", text, "2020-01-01T00:00:00Z", fl, sn)
+        if ret:
+            rec["eff"].append(("poll",))
+
+
+def run_case(case):
+    fx, tdef, itask = new_task(case)
+    rec = fx["rec"]
     trace = []
     for op in case["ops"]:
         rec["eff"] = []
-        if op[0] == "prep":
-            if itask.state.status in ("waiting", "preparing"):
-                tjm.prep_submit_task_jobs([itask], check_syntax=False)
-                # as submit_livelike_task_jobs does once the job file is used
-                itask.local_job_file_path = None
-                itask.waiting_on_job_prep = False
-        elif op[0] == "subres":
-            ctx = SubProcContext("jobs-submit", ["x"])
-            ctx.ret_code = 0
-            job = f"1/{tdef.name}/{itask.submit_num:02d}"
-            line = (f"2020-01-01T00:00:00Z|{job}|0|1234" if op[1]
-                    else f"2020-01-01T00:00:00Z|{job}|1|None")
-            tjm._submit_task_job_callback(itask, ctx, line)
-        else:
-            _, text, flag, rel = op
-            fl = {"received": tem.FLAG_RECEIVED, "polled": tem.FLAG_POLLED,
-                  "internal": tem.FLAG_INTERNAL}[flag]
-            sn = itask.submit_num + rel
-            ret = tem.process_message(itask, "INFO", text, "2020-01-01T00:00:00Z", fl, sn)
-            if ret:
-                rec["eff"].append(("poll",))
+        apply_op(fx, tdef, itask, op)
         trace.append(_observe(itask, rec["eff"]))
     return {"trace": trace}
 
